@@ -61,6 +61,17 @@ def wl_bloom(ctx, rng, case):
                     ctx.check(res.check(key), f"{tag} does not report a key an operand reports", key=key)
                 ctx.check(res.check(key) == sAB.check(key), f"{tag} answers differently from the single-stream filter", key=key)
             ctx.count("unions_compared")
+            # no aliasing between the result and its operands
+            snapA, snapB, snapR = bl.bits_of(sA), bl.bits_of(sB), bl.bits_of(res)
+            res.add("only-in-the-result")
+            ctx.check(bl.bits_of(sA) == snapA and bl.bits_of(sB) == snapB, f"adding to the result of {tag} changed an operand (shared storage)")
+            snapR = bl.bits_of(res)
+            first.add("only-in-the-first-operand-later")
+            ctx.check(bl.bits_of(res) == snapR, f"adding to an operand after {tag} changed the earlier result (shared storage)")
+            sAB.add("only-in-the-first-operand-later") if first is sA else None
+            if first is sB:
+                sAB.add("only-in-the-first-operand-later")
+            ctx.count("aliasing_checks")
         case.nontrivial = len(set(A)) >= 1 and len(set(B)) >= 1
     finally:
         for o in objs:
@@ -137,6 +148,17 @@ def wl_join(ctx, rng, case):
         width = max(width, 2)  # the mean-min query divides by width-1 (as the C original does): width 1 is outside its domain
     A, cA = legit_stream(rng, keys, rng.randint(0, 14))
     B, cB = legit_stream(rng, keys, rng.randint(0, 14))
+    arbitrary = rng.random() < 0.35
+    if arbitrary:
+        # any state the API can reach: removals of keys never added / over-removals (negative counters, totals that net to zero)
+        for stream in (A, B):
+            for _ in range(rng.randint(1, 3)):
+                stream.insert(rng.randint(0, len(stream)), ("remove", rng.choice(keys + ["never-added"]), rng.choice([1, 2, 3, 3, 7])))
+        if rng.random() < 0.5 and B:
+            tot = sum(a if op == "add" else -a for op, _, a in B)
+            if tot > 0:
+                B.append(("remove", rng.choice(keys + ["never-added"]), tot))  # the argument's total nets to exactly zero
+                ctx.count("join_argument_with_zero_total_but_nonzero_cells")
     case.desc = {"kind": "join", "cls": cls_name, "other": other_cls.__name__, "width": width, "depth": depth, "hash": hname, "A": A, "B": B}
     sA = cls(width=width, depth=depth, **bl.kw_hash(hf))
     sB = other_cls(width=width, depth=depth, **bl.kw_hash(hf))
@@ -148,11 +170,13 @@ def wl_join(ctx, rng, case):
     sA.join(sB)
     ctx.check(bytes(sA) == bytes(sAB), "counters/total after join differ from the sketch fed both streams",
               got=refimpl.parse_cms(bytes(sA)), want=refimpl.parse_cms(bytes(sAB)))
-    ctx.check(sA.elements_added == sum(cA.values()) + sum(cB.values()), "element total after join is not the sum of both totals", got=sA.elements_added)
+    want_total = sum(a if op == "add" else -a for op, _, a in A + B)
+    ctx.check(sA.elements_added == want_total, "element total after join is not the sum of both totals", got=sA.elements_added, want=want_total)
     ctx.check(bytes(sB) == b_before, "join modified its argument")
     sA.query_type = "min"
-    for key in keys:
-        ctx.check(sA.check(key) >= cA[key] + cB[key], "estimate after join below the sum of the operands' true counts", key=key, got=sA.check(key), want=cA[key] + cB[key])
+    if not arbitrary:
+        for key in keys:
+            ctx.check(sA.check(key) >= cA[key] + cB[key], "estimate after join below the sum of the operands' true counts", key=key, got=sA.check(key), want=cA[key] + cB[key])
     ctx.count("joins_compared")
     case.nontrivial = bool(A) and bool(B)
 
@@ -170,5 +194,5 @@ PROP = Prop(
         Workload("join", wl_join, quick=700, thorough=50000),
     ],
     assumptions=["unsaturated states only, as the statement says (cases whose combined array is completely set are skipped and counted)"],
-    required=["unions_compared", "joins_compared"],
+    required=["unions_compared", "joins_compared", "join_argument_with_zero_total_but_nonzero_cells", "aliasing_checks"],
 )
